@@ -86,6 +86,17 @@ fn generate(seed: u64, tier: Tier, em: &mut Emitter) {
     }
     let mut rng = seed_mix(seed, 0xC04_0002);
     let count = if tier == Tier::Quick { 1100 } else { 8000 };
+    // big inputs: group_by_key over 65 535 .. 70 001 rows (7 keys), summarised
+    let mut big: Vec<BigCase> = vec![];
+    for (i, (n, p)) in big_grid(tier != Tier::Quick).into_iter().enumerate() {
+        if tier != Tier::Quick || i < 2 {
+            big.push(("bigprog", range_src(Shape::KV, n), vec![Step::GroupByKey], Mode::Par(p)));
+        }
+    }
+    if tier != Tier::Quick {
+        big.push(("bigprog", range_src(Shape::KV, 70_001), vec![Step::GroupByKey], Mode::Seq));
+    }
+    let mut spread = Spread::new(big, count);
     let mut made = 0;
     while made < count {
         let n = gen_len(&mut rng);
@@ -113,12 +124,15 @@ fn generate(seed: u64, tier: Tier, em: &mut Emitter) {
         let mode = if rng.chance(1, 5) { Mode::Seq } else { Mode::Par(parts) };
         emit_prog(em, &src, &steps, mode, true, &["random"]);
         made += 1;
+        spread.step(em);
     }
+    spread.finish(em);
 }
 
 fn run(kind: &str, input: &Value) -> Value {
     match kind {
         "prog" => run_prog_case(input, DIR),
+        "bigprog" => run_bigprog_case(input, DIR),
         _ => serde_json::json!(["invalid"]),
     }
 }
